@@ -274,10 +274,13 @@ func genTTL(r *wire.Rng, c genCA) int64 {
 			v = -(1 << 40)
 		case 1:
 			v = -1
-		case 2, 3:
+		case 2:
 			v = 0
+		case 3:
+			// just beyond the signer's expiry: always clamped (the certificate must end exactly there)
+			v = c.life + wire.Pick(r, []int64{1, 30, 119})
 		case 4:
-			v = 1
+			v = wire.Pick(r, []int64{0, 1})
 		case 5:
 			v = 60
 		case 6:
@@ -468,7 +471,29 @@ func genGoodImpersonation(r *wire.Rng, w genWorld, q *reqSpec) {
 	o := authOutcome{kind: "ok", ids: []string{"spiffe://cluster.local/ns/" + zt.ns + "/sa/" + zt.sa}, kube: kinfo(zt.name, zt.ns, zt.uid, zt.sa)}
 	imp := "spiffe://" + wire.Pick(r, genTDs) + "/ns/" + tgt.ns + "/sa/" + tgt.sa
 	q.cluster = wire.EncList([]string{id})
-	switch r.Intn(21) {
+	switch r.Intn(23) {
+	case 21, 22:
+		// a decorated spelling of the on-node identity: the gate must judge exactly the string that is issued
+		switch r.Intn(9) {
+		case 0:
+			imp += " "
+		case 1:
+			imp = " " + imp
+		case 2:
+			imp += "/"
+		case 3:
+			imp = strings.Replace(imp, "spiffe://", "SPIFFE://", 1)
+		case 4:
+			imp = strings.Replace(imp, "/ns/", "/NS/", 1)
+		case 5:
+			imp = strings.Replace(imp, "/sa/", "/sa/%2E%2E/sa/", 1)
+		case 6:
+			imp += "\t"
+		case 7:
+			imp = strings.Replace(imp, "/ns/", "//ns/", 1)
+		case 8:
+			imp += "%20"
+		}
 	case 18:
 		o.kube.PodUID = "" // valid pod name, no UID presented
 	case 19, 20:
